@@ -15,7 +15,7 @@ import os
 import sys
 import traceback
 
-os.environ.setdefault("NUMBA_DISABLE_JIT", "1")
+os.environ.setdefault("NUMBA_DISABLE_JIT", "0")
 os.environ.setdefault("UXARRAY_VERIF", "1")
 import warnings
 
